@@ -8,6 +8,7 @@ import (
 	"net/http"
 	"strings"
 	"sync"
+	"testing/fstest"
 	"time"
 
 	tpl "code.gopub.tech/tpl"
@@ -46,6 +47,30 @@ func (m *fakeMgrPtr) GetTemplate(name string) (types.Template, error) {
 	return fakeMgr{m.v}.GetTemplate(name)
 }
 
+// a third one: the library's own manager, built by parsing a file system whose one file changes its CONTENT from
+// build to build but neither its name, its size (for builds 1-9) nor its modification time
+type realMgr struct {
+	m types.TemplateManager
+	v int
+}
+
+func (m realMgr) GetTemplate(name string) (types.Template, error) {
+	t, err := m.m.GetTemplate(name)
+	if err != nil {
+		if errors.Is(err, html.ErrTplNotFound) {
+			return nil, notFound{m.v}
+		}
+		return nil, err
+	}
+	return t, nil
+}
+
+func buildReal(v int) (types.TemplateManager, error) {
+	m := html.NewTplManager()
+	err := m.ParseWithSuffix(fstest.MapFS{"t": &fstest.MapFile{Data: []byte(fmt.Sprintf("v%d", v))}, "u.txt": &fstest.MapFile{Data: []byte("x")}}, "t")
+	return realMgr{m, v}, err
+}
+
 var errBuild = errors.New("build failed")
 
 type respWriter struct {
@@ -67,6 +92,9 @@ func runReloadHistory(hot bool, first bool, ops string) (line string, c18 string
 	builder := func(ctx context.Context) (types.TemplateManager, error) {
 		calls++
 		if healthy {
+			if calls%3 == 0 {
+				return buildReal(calls)
+			}
 			if calls%2 == 0 {
 				return &fakeMgrPtr{calls}, nil
 			}
@@ -264,6 +292,9 @@ func runReloadConc(first bool, threads string, sched []int) (line string, c18 st
 			}
 		}
 		if ok {
+			if c%3 == 0 {
+				return buildReal(c)
+			}
 			if c%2 == 0 {
 				return &fakeMgrPtr{c}, nil
 			}
